@@ -50,7 +50,7 @@ CHECKS = {
     "C03": dict(
         engine="corr-trace",
         technique="Coq proof (for every schedule flat tests and clone sources are never executed: invariant over resume/run_schedule; rerun is granted only below max_tries; a setup test found present at its first examination is never executed: class invariant along a trace automaton over resume/run_schedule) + trace refinement; the per-scope execution count is a monitor on the implementation's runs",
-        text=('PARTIAL. Proved for all graphs, pools and schedules: flat and clone-source nodes are never executed; should_rerun grants a rerun only while the counted results (in-flight placeholders included) are below max_tries; a stateless test without results runs once; for every graph, pool population and schedule a test that saves no state is started only with an identifier (= number of results on its class so far) below its budget max(1, max_tries) and is therefore executed on a node copy at most that often (C03_stateless_executions_within_budget, Proofs/TraverseUid.v; stateful tests, whose scan-triggered runs are not bounded by the counter alone, stay with the monitor). For the global reuse scope, every graph meeting cls_all_b (checked on every exported graph; fails only for mixed lxc/remote worker sets under a partial pool_scope), every pool population, schedule and any number of workers: if the first thing that happens to the copies of a setup test (before any worker failed) is an examination that finds its states present, no copy is ever executed in the run (C03_present_setup_never_executed, Proofs/TraversePresent.v: trace automaton + class invariant: finished marker and no results). Checked on the real code: executions per class and reuse scope <= max(1, max_tries) (unless an occupation bump occurred or max_concurrent_tries exceeds max_tries), setup found present at first examination is not executed, execution ids are not reused. A budget violation found this way (concurrent creation pre-steps) was repaired (fix: e60d612).'),
+        text=('PARTIAL. Proved for all graphs, pools and schedules: flat and clone-source nodes are never executed; should_rerun grants a rerun only while the counted results (in-flight placeholders included) are below max_tries; a stateless test without results runs once; for every graph, pool population and schedule a test that saves no state is started only with an identifier (= number of results on its class so far) below its budget max(1, max_tries) and is therefore executed on a node copy at most that often (C03_stateless_executions_within_budget, Proofs/TraverseUid.v; stateful tests, whose scan-triggered runs are not bounded by the counter alone, stay with the monitor). For the global reuse scope, every graph meeting cls_all_b (checked on every exported graph; fails only for mixed lxc/remote worker sets under a partial pool_scope), every pool population, schedule and any number of workers: if the first thing that happens to the copies of a setup test (before any worker failed) is an examination that finds its states present, no copy is ever executed in the run (C03_present_setup_never_executed, Proofs/TraversePresent.v: trace automaton + class invariant: finished marker and no results). The answer of the scan is classified as in Model/Scan.v (C03_scan_runs_only_on_missing_state: run only when the check run reported a missing state; a fault of the check run is an error) and the real scan_states is run under a stubbed door against it. Checked on the real code: executions per class and reuse scope <= max(1, max_tries) (unless an occupation bump occurred or max_concurrent_tries exceeds max_tries), setup found present at first examination is not executed, execution ids are not reused. A budget violation found this way (concurrent creation pre-steps) was repaired (fix: e60d612).'),
         note=TRAV_NOTE,
         design="§5 C03"),
     "C04": dict(
@@ -67,8 +67,8 @@ CHECKS = {
         design="§5 C05"),
     "C08": dict(
         engine="corr-trace",
-        technique="Coq proof by invariant over resume/run_schedule (for EVERY graph, pool population and schedule each execution is started by a worker whose id occurs in the node's name; foreign nodes make the decision fail; picks go to own or flat neighbours) + trace refinement incl. the pulled get_location lists",
-        text=("Proved: C08_own_worker for all schedules (the code's ownership test = worker id is a substring of the name; the harness evaluates on every configuration that this coincides with 'parsed for that worker'); C08_named_sources_are_producers for all schedules (Proofs/TraverseLoc.v: every worker named in the get locations an execution is started with has a PASS result on one of that test's parents - PASS results never disappear and locations are only ever added from them). Checked on the real code at every test start: started by the worker of the node's net, connection parameters are that worker's, every named location belongs to a worker with a PASS result on the producing class and comes with that worker's access parameters; the pulled locations equal the model's (compared as sets)."),
+        technique="Coq proof by invariant over resume/run_schedule (for EVERY graph, pool population and schedule each execution is started by a worker whose id occurs in the node's name; foreign nodes make the decision fail; picks go to own or flat neighbours) + trace refinement incl. the pulled get_location lists; cache invariant for the shared remote sessions + correspondence with the real get_session",
+        text=("Proved: C08_own_worker for all schedules (the code's ownership test = worker id is a substring of the name; the harness evaluates on every configuration that this coincides with 'parsed for that worker'); C08_named_sources_are_producers for all schedules (Proofs/TraverseLoc.v: every worker named in the get locations an execution is started with has a PASS result on one of that test's parents - PASS results never disappear and locations are only ever added from them). C08_session_goes_to_the_callers_address (Model/Session.v, Proofs/SessionProofs.v): for every sequence of get_session calls by any workers and any health-check outcomes the session handed out was opened to the caller's own address (cache invariant: an entry under key k was opened to k); the real TestWorker.get_session of workers parsed from nets.cfg (two clusters with equal host numbers included) is run against it under a stubbed login. Checked on the real code at every test start: started by the worker of the node's net, connection parameters are that worker's, every named location belongs to a worker with a PASS result on the producing class and comes with that worker's access parameters; the pulled locations equal the model's (compared as sets)."),
         note=TRAV_NOTE,
         design="§5 C08"),
     "C15": dict(
